@@ -1,12 +1,22 @@
 package kv
 
-import "fmt"
+import (
+	"fmt"
+	"go/types"
+	"sort"
+	"strings"
+
+	"golang.org/x/tools/go/ssa"
+)
 
 // VerifyLemma proves a pure formula lemma from the contract files.
 func (e *Engine) VerifyLemma(name string) (*Unit, error) {
 	for _, l := range e.Lemmas {
 		if l.Name != name {
 			continue
+		}
+		if l.Commute {
+			return e.verifyCommute(l)
 		}
 		u := NewUnit(e, "lemma:"+name)
 		a := &Act{u: u, spec: true}
@@ -21,4 +31,175 @@ func (e *Engine) VerifyLemma(name string) (*Unit, error) {
 		return u, nil
 	}
 	return nil, fmt.Errorf("lemma %s not found", name)
+}
+
+// verifyCommute: the function is called twice by contract, with two sets of arguments, in both orders from
+// one and the same state. Obligations: the precondition of the second call holds after the first (either
+// order); both orders agree on acceptance (all error results nil); when accepted, every heap ends up equal.
+// Free variables of a closure and the parameters named `shared` have the same value in both calls.
+func (e *Engine) verifyCommute(l *Lemma) (*Unit, error) {
+	var fn *ssa.Function
+	for _, k := range []string{l.Pkg + "." + l.FuncKey, l.FuncKey} {
+		if f := e.FuncByKey[k]; f != nil {
+			fn = f
+		}
+	}
+	if fn == nil {
+		return nil, fmt.Errorf("commute %s: function %s not found", l.Name, l.FuncKey)
+	}
+	fc := e.Contracts[fn]
+	if fc == nil {
+		return nil, fmt.Errorf("commute %s: %s has no contract", l.Name, l.FuncKey)
+	}
+	u := NewUnit(e, "commute:"+l.Name)
+	var err error
+	if cerr := catch(func() { err = e.commuteBody(u, l, fn, fc) }); cerr != nil {
+		return nil, fmt.Errorf("commute %s: %v", l.Name, cerr)
+	}
+	return u, err
+}
+
+func (e *Engine) commuteBody(u *Unit, l *Lemma, fn *ssa.Function, fc *FuncContract) error {
+	u.loadAxioms()
+	a := &Act{u: u, fn: fn, vals: map[ssa.Value]Val{}, pureFns: map[ssa.Value]bool{}, stack: []*ssa.Function{}}
+	a.top = a
+	a.qn = new(int)
+	s0 := &State{u: u, guard: "true", heaps: map[string]Term{}, locals: map[*ssa.Alloc]Term{}, alloc: u.alloc0, seen: map[ssa.Value]Term{}}
+	a.entry = s0
+	shared := map[string]bool{}
+	for _, n := range l.Shared {
+		shared[n] = true
+	}
+	mk := func(suffix string) []Val {
+		var vs []Val
+		for _, p := range fn.Params {
+			name := "c_" + p.Name() + suffix
+			if shared[p.Name()] {
+				name = "c_" + p.Name()
+			}
+			c := u.D.Const(name, u.D.SortOf(p.Type()))
+			if al := s0.allocated(c, p.Type()); al != "true" {
+				u.Fact(al)
+			}
+			vs = append(vs, Val{T: c, Typ: p.Type()})
+		}
+		return vs
+	}
+	args1, args2 := mk("1"), mk("2")
+	if fn.Signature.Recv() != nil && len(args1) > 0 && u.D.SortOf(fn.Params[0].Type()) == "Ref" {
+		u.Fact(not(eq(args1[0].T, "nil")))
+		u.Fact(not(eq(args2[0].T, "nil")))
+	}
+	var free []Val
+	for _, fv := range fn.FreeVars {
+		t := derefType(fv.Type())
+		c := u.D.Const("c_fv_"+fv.Name(), u.D.SortOf(t))
+		if al := s0.allocated(c, t); al != "true" {
+			u.Fact(al)
+		}
+		free = append(free, Val{T: c, Typ: t})
+	}
+	// both argument sets satisfy the precondition in the common start state
+	for _, args := range [][]Val{args1, args2} {
+		env := a.fnEnv(fn, args, free, s0, s0, nil)
+		for _, cl := range fc.Clauses {
+			if cl.Kind == "requires" {
+				u.Fact(a.evalClause(env, cl))
+			}
+		}
+	}
+	if l.Given != nil {
+		// the extra hypothesis talks about name1 / name2
+		env := &Env{a: a, u: u, cur: s0, old: s0, pkg: e.TypesPkgs[l.Pkg], bound: map[string]SVal{}, qn: a.qn, fn: fn}
+		env.lookup = func(name string) (SVal, bool) {
+			for i, p := range fn.Params {
+				if name == p.Name()+"1" {
+					return SVal{T: args1[i].T, Typ: p.Type(), Sort: u.D.SortOf(p.Type())}, true
+				}
+				if name == p.Name()+"2" || name == p.Name() {
+					return SVal{T: args2[i].T, Typ: p.Type(), Sort: u.D.SortOf(p.Type())}, true
+				}
+			}
+			for i, fv := range fn.FreeVars {
+				if name == fv.Name() {
+					t := derefType(fv.Type())
+					return SVal{T: free[i].T, Typ: t, Sort: u.D.SortOf(t)}, true
+				}
+			}
+			return SVal{}, false
+		}
+		env.oldLookup = env.lookup
+		u.Fact(env.eval(l.Given).T)
+	}
+	run := func(first, second []Val) (*State, Term) {
+		st := s0.clone()
+		ok := Term("true")
+		for _, args := range [][]Val{first, second} {
+			cp := append([]Val{}, args...)
+			res := a.callByContract(st, fn, fc, cp, free, fn.Pos())
+			n := fn.Signature.Results().Len()
+			if n > 0 && u.D.SortOf(fn.Signature.Results().At(n-1).Type()) == "Iface" {
+				last := res
+				if res.Tuple != nil {
+					last = res.Tuple[n-1]
+				}
+				ok = and(ok, eq(app("itag", last.T), "0"))
+			}
+		}
+		return st, ok
+	}
+	sa, okA := run(args1, args2)
+	sb, okB := run(args2, args1)
+	u.Oblige("lemma", l.Name+":verdict", e.Pos(fn.Pos()), "both orders agree on acceptance (f(x); f(y) accepted <=> f(y); f(x) accepted)", "true", eq(okA, okB), l.Tags)
+	var names []string
+	for n := range u.heapSort {
+		if !isGhostHeap(n) {
+			names = append(names, n)
+		}
+	}
+	sort.Strings(names)
+	for _, n := range names {
+		ha, hb := sa.heap(n, u.heapSort[n]), sb.heap(n, u.heapSort[n])
+		if ha == hb {
+			continue
+		}
+		goal := eq(ha, hb)
+		if strings.HasPrefix(n, "MV_") {
+			// map values are compared on the (common) domain only: the value array keeps stale entries of deleted keys
+			dn := "MD_" + strings.TrimPrefix(n, "MV_")
+			if ds, ok := u.heapSort[dn]; ok {
+				ks := arrayKeySort(strings.TrimSuffix(strings.TrimPrefix(ds, "(Array Ref "), ")"))
+				da := sa.heap(dn, ds)
+				goal = fmt.Sprintf("(forall ((r Ref) (k %s)) (=> (and (< (rid r) %s) (select (select %s r) k)) (= (select (select %s r) k) (select (select %s r) k))))", ks, u.alloc0, da, ha, hb)
+			}
+		} else if strings.HasPrefix(u.heapSort[n], "(Array Ref") {
+			// objects allocated during the calls may be numbered differently in the two orders: compare what existed before
+			goal = fmt.Sprintf("(forall ((r Ref)) (=> (< (rid r) %s) (= (select %s r) (select %s r))))", u.alloc0, ha, hb)
+		}
+		u.Oblige("lemma", l.Name+":state:"+n, e.Pos(fn.Pos()), "when both orders are accepted they end in the same state (heap "+n+")", and(okA, okB), goal, l.Tags)
+	}
+	_ = types.Typ
+	return nil
+}
+
+// arrayKeySort: the index sort of "(Array K V)" (K may itself be parenthesised).
+func arrayKeySort(s string) string {
+	s = strings.TrimPrefix(strings.TrimSpace(s), "(Array ")
+	if strings.HasPrefix(s, "(") {
+		d := 0
+		for i, c := range s {
+			if c == '(' {
+				d++
+			} else if c == ')' {
+				d--
+				if d == 0 {
+					return s[:i+1]
+				}
+			}
+		}
+	}
+	if i := strings.Index(s, " "); i > 0 {
+		return s[:i]
+	}
+	return s
 }
